@@ -129,17 +129,30 @@ def check_case(case, ctx):
             v.append(f"level {l}: grid size {o['grid_sizes'][l]}")
         dx = plot.dx[l][cn]
         tol = 1e-9 * dx
-        meet = [b for b, (blo, bhi) in enumerate(plot.levels[l]["boxes"])
+        # boxes the plane certainly meets, and boxes with a face within rounding distance of the plane (the statement
+        # cannot say on which side of such a face the plane is: those boxes may or may not be listed)
+        boxes_l = plot.levels[l]["boxes"]
+        strict = [b for b, (blo, bhi) in enumerate(boxes_l)
+                  if lo_n + blo[cn] * dx + tol < p < lo_n + (bhi[cn] + 1) * dx - tol]
+        meet = [b for b, (blo, bhi) in enumerate(boxes_l)
                 if lo_n + blo[cn] * dx - tol <= p <= lo_n + (bhi[cn] + 1) * dx + tol]
-        exp_fp = collections.Counter(((plot.levels[l]["boxes"][b][0][cx], plot.levels[l]["boxes"][b][0][cy]),
-                                      (plot.levels[l]["boxes"][b][1][cx], plot.levels[l]["boxes"][b][1][cy])) for b in meet)
+        fp = lambda b: ((boxes_l[b][0][cx], boxes_l[b][0][cy]), (boxes_l[b][1][cx], boxes_l[b][1][cy]))
+        need_fp = collections.Counter(fp(b) for b in strict)
+        exp_fp = collections.Counter(fp(b) for b in meet)
         got_fp = collections.Counter((tuple(lo), tuple(hi)) for lo, hi in olev["idx"])
-        if exp_fp != got_fp:
-            missing = list((exp_fp - got_fp).elements())[:3]
+        covered = lambda c: set((i, j) for (lo2, hi2) in c for i in range(lo2[0], hi2[0] + 1) for j in range(lo2[1], hi2[1] + 1))
+        # where the plane lies on a face shared by a box below and a box above, at least one of the two must be listed
+        below = covered(fp(b) for b in meet if b not in strict and abs(lo_n + (boxes_l[b][1][cn] + 1) * dx - p) <= tol)
+        above = covered(fp(b) for b in meet if b not in strict and abs(lo_n + boxes_l[b][0][cn] * dx - p) <= tol)
+        must_cover = covered(need_fp) | (below & above)
+        if (need_fp - got_fp) or (got_fp - exp_fp) or not must_cover <= covered(got_fp):
+            missing = list((need_fp - got_fp).elements())[:3] or sorted(must_cover - covered(got_fp))[:3]
             extra = list((got_fp - exp_fp).elements())[:3]
             v.append(f"level {l}: footprints differ from the boxes the plane meets: missing {missing} extra {extra} "
-                     f"({len(olev['idx'])} written, {len(meet)} expected) {what}")
+                     f"({len(olev['idx'])} written, {len(strict)}..{len(meet)} expected) {what}")
             continue
+        if len(meet) != len(strict):
+            ctx.label("plane-on-a-box-face (either side accepted)")
         if not meet:
             ctx.label("level-without-boxes")
             continue
